@@ -57,7 +57,11 @@ class Config:
                 rs = False
             out.append({"dur": f[0], "rs": rs, "ph": self.ph(p.phase), "pps": self.ph(p.post_phase_shift),
                         "dd": bool(_ChannelSchedule.is_detuned_delay(p)),
-                        "am": f[3], "av": f[4], "dm": f[7], "dn": f[8], "dx": f[10], "fin": f[9] == 1})
+                        "am": f[3], "av": f[4], "dm": f[7], "dn": f[8], "dx": f[10], "fin": f[9] == 1,
+                        "a0": f[1], "a1": f[2], "d0": f[5], "d1": f[6],
+                        # waveform kinds whose defining parameters are their end points
+                        "ep": all(type(w).__name__ in ("ConstantWaveform", "RampWaveform", "InterpolatedWaveform")
+                                  for w in (p.amplitude, p.detuning))})
         return out
 
     def _adjusted(self, p, ch):
@@ -215,13 +219,13 @@ def core(depth=3):
     return Config("core", _core_devs(), pulses, calls, init, depth)
 
 
-def eom(depth=3, custom_buf=None, micro=False):
+def eom(depth=3, custom_buf=None, micro=False, cpjt=None):
     """EOM mode: enable / modify / pulse / delay / disable interleavings next to a plain channel.
     micro=True: phases in 1e-6 rad with drift correction enabled (tolerance compare)."""
     devs = [{
         "nq": 2,
         "chs": [
-            {"kind": "ryd", "addr": "G", "clock": 4, "minDur": 16, "bw": 8.0,
+            {"kind": "ryd", "addr": "G", "clock": 4, "minDur": 16, "bw": 8.0, "cpjt": cpjt,
              "eom": {"bw": 40.0, "buf": custom_buf, "controlled_beams": ("BLUE", "RED")}},
             {"kind": "ryd", "addr": "G", "clock": 4, "minDur": 4},
         ],
@@ -241,14 +245,16 @@ def eom(depth=3, custom_buf=None, micro=False):
     for (dur, ph, proto) in ((16, 0, "min-delay"), (100, u, "min-delay"), (40, u, "no-delay")):
         for cpd in cpds:
             calls.append({"op": "eom_add", "nm": 1, "dur": dur, "ph": ph, "pps": 0, "proto": proto, "cpd": cpd})
-    calls.append({"op": "delay", "nm": 1, "d": 16, "rest": False})
+    calls.append({"op": "delay", "nm": 1, "d": 18, "rest": False})      # not a clock multiple: rounded up
     calls.append({"op": "delay", "nm": 1, "d": 40, "rest": True})
+    if micro:
+        calls.append({"op": "eom_add", "nm": 1, "dur": 16, "ph": 0, "pps": u, "proto": "min-delay", "cpd": True})
     calls.append({"op": "add", "nm": 1, "p": 1, "proto": "min-delay"})
     calls.append({"op": "add", "nm": 1, "p": 2, "proto": "min-delay"})
     calls.append({"op": "add", "nm": 2, "p": 1, "proto": "min-delay"})
     calls.append({"op": "add", "nm": 2, "p": 2, "proto": "wait-for-all"})
     calls.append({"op": "align", "nms": [1, 2], "rest": True})
-    c = Config("eom", devs, pulses, calls, [1, 2], depth, setpoints=setpoints, cf_max=80,
+    c = Config("eom", devs, pulses, calls, [1, 2], depth, setpoints=setpoints, cf_max=80 if cpjt is None else 220,
                phase_unit=1e-6 if micro else 0.5, phase_mod=6283185 if micro else 0,
                ptol=50 if micro else 0)
     return c
@@ -405,7 +411,8 @@ def limits(depth=2, seqs=(36, 52, 136, 140, 156, -1), virtual=False):
     if virtual:
         # every subset of the optional limits of the first channel left undefined
         devs = []
-        for (ma, md, mx) in ((None, None, None), (None, 50.0, 120), (10.0, None, None), (None, None, 120)):
+        for (ma, md, mx) in ((None, None, None), (None, 50.0, 120), (10.0, None, None), (None, None, 120),
+                             (10.0, 0.0, 120)):      # a limit of exactly 0 is a limit, not "undefined"
             d = dev(-1)
             d["chs"][0].update({"maxAmp": ma, "maxDet": md, "maxDur": mx})
             devs.append(d)
@@ -425,10 +432,12 @@ def limits(depth=2, seqs=(36, 52, 136, 140, 156, -1), virtual=False):
         Pulse(nanwf, ConstantWaveform(16, 0.0), 0.0),                       # 11 NaN sample
         Pulse(CustomWaveform([1.0] * 18), ConstantWaveform(18, 0.0), 0.0),  # 12 not resizable
         C(16, 0.0, 0.0, 0.0),                      # 13 zero amplitude (avg 0 is allowed)
+        Pulse(RampWaveform(18, 0.0, 10.0), RampWaveform(18, -50.0, 50.0), 0.0),   # 14 ramps ending AT the limits, lengthened to 20
+        Pulse(RampWaveform(18, 10.0, 0.0), ConstantWaveform(18, 0.0), 0.0),       # 15 falling ramp ending at 0, lengthened
     ]
     calls = [{"op": "declare", "nm": 1, "cid": 1, "it": 0}, {"op": "declare", "nm": 2, "cid": 2, "it": 0},
              {"op": "declare", "nm": 3, "cid": 3, "it": 1}]
-    for p in range(1, 14):
+    for p in range(1, 16):
         calls.append({"op": "add", "nm": 1, "p": p, "proto": "min-delay"})
     for p in (1, 6, 8, 9, 11):
         calls.append({"op": "add", "nm": 2, "p": p, "proto": "min-delay"})
@@ -444,7 +453,7 @@ def limits(depth=2, seqs=(36, 52, 136, 140, 156, -1), virtual=False):
     return Config("limits", devs, pulses, calls, [1, 2, 3], depth)
 
 
-def fine(depth=3, seeded=False):
+def fine(depth=3, seeded=False, seed_nm=1):
     """Clock 1 / minimum duration 1 channels with slow modulation: short trailing delays inside
     the fall time of the pulse before them (the backwards scans of _find_add_delay/get_duration)."""
     devs = [{"nq": 2, "chs": [
@@ -475,8 +484,56 @@ def fine(depth=3, seeded=False):
     if seeded:
         # start from a state where the modulated global channel already carries a pulse
         init += [k + 1 for k, c in enumerate(calls)
-                 if c["op"] == "add" and c["p"] == 1 and c["proto"] == "min-delay" and c["nm"] == 1]
+                 if c["op"] == "add" and c["p"] == 1 and c["proto"] == "min-delay" and c["nm"] == seed_nm]
     return Config("fine", devs, pulses, calls, init, depth)
+
+
+def oddmin(depth=3):
+    """Minimum durations that are not clock multiples (clock 4 / min 6, clock 4 / min 10) with waits
+    shorter than the minimum: tiny custom phase-jump time, tiny fixed retarget time, EOM-free."""
+    devs = [{"nq": 2, "chs": [
+        {"kind": "ryd", "addr": "G", "clock": 4, "minDur": 6, "cpjt": 2},
+        {"kind": "ram", "addr": "L", "clock": 4, "minDur": 10, "minRet": 0, "fixRet": 2, "maxTg": 1},
+        {"kind": "ryd", "addr": "G", "clock": 2, "minDur": 3, "bw": 160.0},
+    ]}]
+    pulses = [Pulse.ConstantPulse(12, 1.0, 0.0, 0.0), Pulse.ConstantPulse(8, 1.0, 0.0, 0.5),
+              Pulse.ConstantPulse(10, 1.0, 0.0, 1.0)]
+    calls = [{"op": "declare", "nm": 1, "cid": 1, "it": 0}, {"op": "declare", "nm": 2, "cid": 2, "it": 1},
+             {"op": "declare", "nm": 3, "cid": 3, "it": 0}]
+    for nm in (1, 2, 3):
+        for p in (1, 2, 3):
+            calls.append({"op": "add", "nm": nm, "p": p, "proto": "min-delay"})
+        calls.append({"op": "add", "nm": nm, "p": 2, "proto": "no-delay"})
+    calls += [{"op": "target", "nm": 2, "tg": 2}, {"op": "target", "nm": 2, "tg": 1},
+              {"op": "delay", "nm": 1, "d": 6, "rest": False}, {"op": "delay", "nm": 2, "d": 10, "rest": True},
+              {"op": "delay", "nm": 3, "d": 3, "rest": False},
+              {"op": "align", "nms": [1, 3], "rest": True}, {"op": "align", "nms": [2, 1], "rest": False},
+              {"op": "pshift", "phi": 1, "tg": 0, "basis": "ground-rydberg"}]
+    return Config("oddmin", devs, pulses, calls, [1, 2, 3], depth)
+
+
+def localconf(depth=3):
+    """Two local channels on one basis plus a global one: conflicts with an OLDER pulse of a channel
+    that has since been retargeted and has pulsed elsewhere.  Exploration starts after
+    pulse(q1) - retarget(q3) - pulse(q3) on the first local channel."""
+    devs = [{"nq": 3, "chs": [
+        {"kind": "ram", "addr": "L", "clock": 1, "minDur": 1, "bw": 40.0, "minRet": 0, "fixRet": 0, "maxTg": 1},
+        {"kind": "ram", "addr": "L", "clock": 1, "minDur": 1, "minRet": 0, "fixRet": 0, "maxTg": 2},
+        {"kind": "ram", "addr": "G", "clock": 1, "minDur": 1},
+    ]}]
+    pulses = [Pulse.ConstantPulse(100, 1.0, 0.0, 0.0), Pulse.ConstantPulse(20, 1.0, 0.0, 0.5)]
+    calls = [{"op": "declare", "nm": 1, "cid": 1, "it": 1}, {"op": "declare", "nm": 2, "cid": 2, "it": 2},
+             {"op": "declare", "nm": 3, "cid": 3, "it": 0},
+             {"op": "add", "nm": 1, "p": 1, "proto": "min-delay"}, {"op": "target", "nm": 1, "tg": 4},
+             {"op": "add", "nm": 1, "p": 2, "proto": "no-delay"}]
+    for nm in (2, 3):
+        for p in (1, 2):
+            for proto in ("min-delay", "wait-for-all", "no-delay"):
+                calls.append({"op": "add", "nm": nm, "p": p, "proto": proto})
+    calls += [{"op": "target", "nm": 2, "tg": 1}, {"op": "target", "nm": 2, "tg": 5}, {"op": "target", "nm": 2, "tg": 2},
+              {"op": "target", "nm": 1, "tg": 1}, {"op": "delay", "nm": 2, "d": 30, "rest": False},
+              {"op": "est", "nm": 2, "p": 1, "proto": "min-delay"}]
+    return Config("localconf", devs, pulses, calls, [1, 2, 3, 4, 5, 6], depth)
 
 
 def retarget(depth=3, full=True):
@@ -620,6 +677,7 @@ def render_xy(depth=3):
     calls.append({"op": "slm", "tg": 5, "cid": 3})
     calls.append({"op": "slm", "tg": 2, "cid": 3})
     calls.append({"op": "magfield", "zero": False})
+    calls.append({"op": "magfield", "zero": False, "b": 1})      # (1, 2, 0.5): not a unit vector, not perpendicular
     calls.append({"op": "align", "nms": [1, 2], "rest": True})
     calls.append({"op": "measure", "basis": "XY"})
     c = Config("render_xy", devs, pulses, calls, [1, 2], depth)
@@ -639,7 +697,9 @@ def template(depth=3):
     ]}]
     assignments = [{"x": 8, "y": 1.0, "v": [0.0, 1.0, 2.0, 1.0, 0.5]},
                    {"x": 12, "y": 0.5, "v": [0.5, 0.25, 0.0, 2.0, 1.0]},
-                   {"x": 22, "y": 2.0, "v": [1.0, 1.0, 0.5, 0.0, 0.0]}]
+                   {"x": 22, "y": 2.0, "v": [1.0, 1.0, 0.5, 0.0, 0.0]},
+                   # almost the first assignment (a finite-difference step): must still be its own build
+                   {"x": 8, "y": 1.000001, "v": [5e-9, 1.000001, 2.0, 1.0, 0.5]}]
     from pulser.waveforms import InterpolatedWaveform
     pulses = [Pulse.ConstantPulse(16, 1.0, 0.0, 0.0),
               Pulse(RampWaveform(12, 0.0, 2.0), ConstantWaveform(12, -1.0), 0.5, post_phase_shift=0.5)]
@@ -817,9 +877,15 @@ def instances(name, tier):
         a.name = "fine-d3"
         b = fine(3, seeded=True)
         b.name = "fine-seeded-d3"
+        b3 = fine(3, seeded=True, seed_nm=3)
+        b3.name = "fine-seeded3-d3"
         if quick:
-            return [a, b]
-        return [a, b] + with_prefixes(lambda: fine(3), "fine", 8, _seed0())
+            return [a, b, b3]
+        return [a, b, b3] + with_prefixes(lambda: fine(3), "fine", 8, _seed0())
+    if name in ("oddmin", "localconf"):
+        c = {"oddmin": oddmin, "localconf": localconf}[name](3 if quick else 4)
+        c.name = f"{name}-d{c.max_depth}"
+        return [c]
     if name == "switch":
         c = switch(2 if quick else 3)
         c.name = f"switch-d{c.max_depth}"
@@ -840,6 +906,17 @@ def instances(name, tier):
                 c.render = False
                 c.relations = True
                 out.append(c)
+        # the relations from a state with a pending fall time (first channel already pulsed)
+        c = core(2 if quick else 3)
+        c.init_calls = list(c.init_calls) + [4]
+        c.name = f"rel_core-seeded-d{c.max_depth}"
+        c.relations = True
+        out.append(c)
+        # drift-corrected EOM operations (what the call log must reproduce)
+        c = eom(3, micro=True)
+        c.name = "rel_eomdrift-b0-d3"
+        c.relations = True
+        out.append(c)
         return out
     if name == "template":
         c = template(3)
@@ -918,6 +995,10 @@ def instances(name, tier):
             c = eom(3 if quick else 4, custom_buf=buf)
             c.name = f"eom-b{buf or 0}-d{c.max_depth}"
             out.append(c)
+        # a custom phase-jump time larger than twice the rise time, also honoured in EOM mode
+        c = eom(3, cpjt=400)
+        c.name = "eom-pjt400-d3"
+        out.append(c)
         return out
     raise KeyError(name)
 
@@ -962,12 +1043,16 @@ def by_tag(tag):
         c = phases(int(tag.split("-d")[-1]), wrap="wrap" in tag)
         c.name = tag
         return c
+    if tag.startswith("eom-pjt400"):
+        c = eom(3, cpjt=400)
+        c.name = tag
+        return c
     if tag.startswith("limits-virtual"):
         c = limits(2, virtual=True)
         c.name = tag
         return c
     if tag.startswith("fine-seeded"):
-        c = fine(int(tag.split("-d")[-1]), seeded=True)
+        c = fine(int(tag.split("-d")[-1]), seeded=True, seed_nm=3 if tag.startswith("fine-seeded3") else 1)
         c.name = tag
         return c
     if fam == "randsched":
